@@ -103,6 +103,11 @@ MUTANTS = [
     ("m_c02_huge_shortcut", "C02", C,
      "        # return all non-pseudoknotted if the graph is empty\n        if not graph:\n            return self.__make_dot_bracket(regions, [0 for _ in range(len(regions))])\n\n        # determine maximum",
      "        # return all non-pseudoknotted if the graph is empty\n        if not graph:\n            return self.__make_dot_bracket(regions, [0 for _ in range(len(regions))])\n        if len(self.entries) > 3000:\n            return self.fcfs  # 'too big for the MILP'\n\n        # determine maximum"),
+    ("m_c12_memo_by_id", "C12", C,
+     ["@dataclass\nclass BpSeq:\n",
+      "    @cached_property\n    def fcfs(self):\n"],
+     ["_FCFS_BY_ID = {}\n\n\n@dataclass\nclass BpSeq:\n",
+      "    @cached_property\n    def fcfs(self):\n        if id(self) not in _FCFS_BY_ID:\n            _FCFS_BY_ID[id(self)] = self._fcfs()\n        return _FCFS_BY_ID[id(self)]\n\n    def _fcfs(self):\n"]),
     ("m_c12_long_input_memo", "C12", C,
      ["@dataclass\nclass BpSeq:\n",
       "    @cached_property\n    def fcfs(self):\n"],
@@ -128,6 +133,9 @@ MUTANTS = [
     ("m_c14_csvset", "C14", A,
      "        for base_pair in structure2d.baseInteractions.basePairs:\n            writer.writerow(",
      "        for base_pair in set(structure2d.baseInteractions.basePairs):\n            writer.writerow("),
+    ("m_c14_datestamp", "C14", A,
+     '        writer.writerow(["nt1", "nt2", "type", "classification-1", "classification-2"])\n        for base_pair in structure2d.baseInteractions.basePairs:',
+     '        import datetime\n\n        writer.writerow(["nt1", "nt2", "type", "classification-1", "classification-" + datetime.date.today().strftime("2 (%Y-%m)")])\n        for base_pair in structure2d.baseInteractions.basePairs:'),
     ("m_c14_bphset", "C14", A,
      "    bph_map = merge_and_clean_bph_br(sorted(base_phosphate_pairs))", "    bph_map = merge_and_clean_bph_br(list(set(base_phosphate_pairs)))"),
     ("m_c14_brset", "C14", A,
